@@ -21,6 +21,12 @@
 (*                    array has Len(buf[b]) >= n cells. The caller (and every *)
 (*                    goroutine it shares the slice with) goes on using it:   *)
 (*                    a logging call only READS its operands.                 *)
+(*                    m = [form, shape] says which call form it is ("ln" =    *)
+(*                    println-style I/T/W/E/X.Println, "f" = printf-style) and *)
+(*                    what the rendered message looks like (plain, empty,     *)
+(*                    interior / trailing newlines, CR, long): whatever it    *)
+(*                    looks like, the unit is the Write call - ONE per call,  *)
+(*                    holding label, time, prefix and the whole message.      *)
 (*   buf    caller-owned operand storage: buffer -> its cells up to capacity. *)
 (*          A cell is j when it holds what the application put into cell j,   *)
 (*          0 when it holds something the application never put there.        *)
@@ -38,7 +44,15 @@
 (*               caller's cells are shifted by one, so the NEXT call with the *)
 (*               same slice - by this goroutine or any other - prints the     *)
 (*               earlier call's prefix inside a truncated message             *)
-EXTENDS Naturals, Sequences, FiniteSets, TLC
+(*   WholeMsg    C18/split-at-newline: a message whose rendered text has k    *)
+(*               interior newlines is logged piece by piece, k+1 writes each  *)
+(*               with its own label/time/prefix; the logger's lock is free    *)
+(*               between them, so other goroutines' lines land in between     *)
+(*   SignedCid   C18/obj-cid-unsigned: the println-style prefix renders the   *)
+(*               Cid() of an application object as an unsigned number: a      *)
+(*               negative id prints as id + 2^w, and differently from what    *)
+(*               the printf-style calls print for the same object             *)
+EXTENDS Integers, Sequences, FiniteSets, TLC
 
 CONSTANTS N,          \* worker goroutines 1..N
           MaxCtx,     \* contexts a goroutine may make          (bound of Next only)
@@ -52,6 +66,10 @@ CONSTANTS N,          \* worker goroutines 1..N
           Cap,        \* their capacity (cells)
           Wins,       \* window lengths n Next passes operands with: buf[b][1..n], subset of 0..Cap
           OwnStorage, \* TRUE: the call never writes to the caller's operands (FALSE = deviation)
+          Forms,      \* call forms Next logs through, subset of {"ln", "f"}
+          Shapes,     \* message shapes Next logs, subset of AllShapes
+          WholeMsg,   \* TRUE: one write per call whatever the message looks like (FALSE = deviation)
+          SignedCid,  \* TRUE: an object's Cid() is printed as the integer it is (FALSE = deviation)
           Sink(_, _)  \* how the writer's history is kept: KeepAll (the specification), or KeepLast for
                       \* long recorded traces, where only the newest write is looked at
 
@@ -89,9 +107,27 @@ SpecPrefix(a) == CASE a.k = "nil" -> [judged |-> TRUE,  pid |-> Pid, cid |-> 0]
                    [] a.k = "ctx" -> [judged |-> TRUE,  pid |-> Pid, cid |-> IdOf(NameOf(a))]
                    [] OTHER       -> [judged |-> FALSE, pid |-> 0,   cid |-> 0]
 
+(* Call form and message shape.  Inner(sh) = newlines in the rendered message that are *)
+(* not at its end; everything else about a shape (empty, trailing newlines, CR, 4 KiB,  *)
+(* 64 KiB) is a value class of the generator the specification treats alike.            *)
+AllForms  == {"ln", "f"}
+AllShapes == {"plain", "empty", "trail1", "trail2", "inner1", "inner2", "inner1trail1", "cr", "crlf",
+              "long4k", "long64k", "long64kinner"}
+Inner(sh) == CASE sh \in {"inner1", "inner1trail1", "crlf", "long64kinner"} -> 1
+               [] sh = "inner2" -> 2
+               [] OTHER -> 0
+Plain     == [form |-> "ln", shape |-> "plain"]
+\* value classes for ObjIds (a cfg file cannot write a negative number: ObjIds <- NegIds)
+NegIds    == {0, -1}
+WideIds   == {0, -1, -2147483647, 1, 1000, 2147483647}
+Unsigned(id) == IF id < 0 THEN id + 65536 ELSE id
+
 (* What a logging call writes.  Deviation C18/obj-cid-dropped (ObjCid = FALSE): *)
 (* an application object is treated as if no context had been passed.          *)
-Prefix(a) == IF a.k = "obj" /\ ~ObjCid THEN SpecPrefix(NilArg) ELSE SpecPrefix(a)
+(* Deviation C18/obj-cid-unsigned (SignedCid = FALSE): println-style only.      *)
+Prefix(a, m) == IF a.k = "obj" /\ ~ObjCid THEN SpecPrefix(NilArg)
+                ELSE IF a.k = "obj" /\ ~SignedCid /\ m.form = "ln" THEN [SpecPrefix(a) EXCEPT !.cid = Unsigned(a.i)]
+                ELSE SpecPrefix(a)
 
 (* How the operands of a logging call are passed.                             *)
 Lit       == [k |-> "lit", b |-> 0, n |-> 0]     \* written out in the call: storage of the call itself
@@ -161,10 +197,11 @@ Alias(g, c, src) ==
 
 (* --------------------------------- logging -------------------------------- *)
 Msg(g)  == [g |-> g, k |-> nlog[g] + 1]           \* unique per call
-Line(g, level, a, s) == [kind |-> "line", level |-> level, pfx |-> Prefix(a), msg |-> Msg(g), arg |-> a,
-                         src |-> s, ops |-> Operands(s)]
+Line(g, level, a, s, m) == [kind |-> "line", level |-> level, pfx |-> Prefix(a, m), msg |-> Msg(g), arg |-> a,
+                            src |-> s, ops |-> Operands(s), m |-> m, part |-> 0]
 HeadOf(l) == [l EXCEPT !.kind = "head"]             \* label, time, prefix - no message, no newline
 TailOf(l) == [l EXCEPT !.kind = "tail"]             \* message and newline only
+PieceOf(l, j) == [l EXCEPT !.kind = "piece", !.part = j]   \* label, time, prefix, j-th piece of the message
 
 \* Does the call put a prefix of its own before the operands?  (The deviation needs one to insert.)
 HasPrefix(a) == a.k # "bg"
@@ -172,14 +209,19 @@ HasPrefix(a) == a.k # "bg"
 \* one logging call through `level` with context argument a and operands passed as s; routed =
 \* the level's logger writes to the current writer (otherwise to the discard sink).  The argument
 \* list is formatted whether or not the level is routed, so the deviation shows for discarded levels too.
-LogCall(g, level, a, s, routed) ==
+LogCall(g, level, a, s, m, routed) ==
   /\ rd[g] = Idle /\ pend[g] = <<>>
   /\ ArgOk(a) /\ SrcOk(s)
   /\ nlog' = [nlog EXCEPT ![g] = @ + 1]
-  /\ IF ~routed THEN UNCHANGED <<out, pend>>
-     ELSE IF AtomicLine THEN out' = Sink(out, Line(g, level, a, s)) /\ UNCHANGED pend
-     ELSE /\ out' = Sink(out, HeadOf(Line(g, level, a, s)))          \* deviation C18/split-line
-          /\ pend' = [pend EXCEPT ![g] = <<TailOf(Line(g, level, a, s))>>]
+  /\ LET l == Line(g, level, a, s, m) IN
+     IF ~routed THEN UNCHANGED <<out, pend>>
+     ELSE IF ~AtomicLine
+     THEN /\ out' = Sink(out, HeadOf(l))                             \* deviation C18/split-line
+          /\ pend' = [pend EXCEPT ![g] = <<TailOf(l)>>]
+     ELSE IF ~WholeMsg /\ Inner(m.shape) > 0
+     THEN /\ out' = Sink(out, PieceOf(l, 1))                         \* deviation C18/split-at-newline
+          /\ pend' = [pend EXCEPT ![g] = [j \in 1..Inner(m.shape) |-> PieceOf(l, j + 1)]]
+     ELSE out' = Sink(out, l) /\ UNCHANGED pend                      \* the specification: one write
   /\ IF ~OwnStorage /\ s.k = "win" /\ HasPrefix(a) /\ s.n < Len(buf[s.b])
      THEN buf' = [buf EXCEPT ![s.b] = Shifted(@, s.n)]             \* deviation C18/prefix-inserted-in-place
      ELSE UNCHANGED buf                                            \* operands are only read
@@ -187,10 +229,10 @@ LogCall(g, level, a, s, routed) ==
 
 WriteTail(g) == /\ pend[g] # <<>>
                 /\ out' = Sink(out, pend[g][1])
-                /\ pend' = [pend EXCEPT ![g] = <<>>]
+                /\ pend' = [pend EXCEPT ![g] = Tail(@)]
                 /\ UNCHANGED <<idvars, nlog, buf>>
 
-Log(g, level, a, s) == LogCall(g, level, a, s, level \in Routed)
+Log(g, level, a, s, m) == LogCall(g, level, a, s, m, level \in Routed)
 
 (* ---------------------------------- Next ---------------------------------- *)
 NumMade(g) == Len(ctxid[g])
@@ -204,7 +246,8 @@ Next == \E g \in Procs :
              /\ \/ New(g, Fresh(g))
                 \/ \E s \in Sources : Alias(g, Fresh(g), s)
           \/ /\ nlog[g] < MaxLog
-             /\ \E l \in Levels, a \in Args, s \in Srcs : Log(g, l, a, s)
+             /\ \E l \in Levels, a \in Args, s \in Srcs, f \in Forms, sh \in Shapes :
+                   Log(g, l, a, s, [form |-> f, shape |-> sh])
           \/ WriteTail(g)
 
 Spec == Init /\ [][Next]_vars
@@ -226,6 +269,10 @@ WholeLines == \A i \in 1..Len(out) :
                 /\ out[i].level \in Routed
                 /\ out[i].ops = Meant(out[i].src)
 
+\* never interleaved with another goroutine's line: whatever one call writes is adjacent at the writer
+\* (implied by WholeLines and OnePerCall - one write per call -; stated on its own for the deviations)
+Adjacent == \A i, k \in 1..Len(out) : (i < k /\ out[i].msg = out[k].msg) => \A j \in i..k : out[j].msg = out[i].msg
+
 \* a logging call leaves the caller's operands - the whole backing array, not only the window it was
 \* given - as the application filled them.  This is what makes `one line with the right prefix and
 \* message` hold for the NEXT call with the same slice, and what makes read-only sharing of a slice
@@ -245,6 +292,6 @@ CounterOk == /\ used = {IdOf(c) : c \in {d \in Made : IsNew(d)}}
 TypeOK == /\ next \in Nat /\ used \subseteq Nat
           /\ \A g \in AllProcs : Len(origin[g]) = Len(ctxid[g])
           /\ \A c \in Made : IdOf(c) \in Nat /\ IdOf(c) >= FirstId
-          /\ \A g \in AllProcs : rd[g] \in Nat /\ nlog[g] \in Nat /\ Len(pend[g]) <= 1
+          /\ \A g \in AllProcs : rd[g] \in Nat /\ nlog[g] \in Nat /\ Len(pend[g]) <= 2
           /\ \A b \in DOMAIN buf : \A j \in 1..Len(buf[b]) : buf[b][j] \in 0..Len(buf[b])
 =============================================================================
